@@ -107,6 +107,7 @@ MUTANTS = [
      "  if not options.internal_convert_user_code:\n    return _call_unconverted(f, args, kwargs, options)",
      "  if not options.internal_convert_user_code and not options.recursive:\n    return _call_unconverted(f, args, kwargs, options)"),
     ('c13-revert-f2', 'C13', None, 'git-revert', '82800c3'),
+    ('c13-revert-f4', 'C13', None, 'git-revert', 'bd2ad2a'),
     ('c10-revert-f1', 'C10', None, 'git-revert', '5e04fcf'),
     ('c10-revert-f3', 'C10', None, 'git-revert', 'f98cffd'),
 ]
